@@ -138,21 +138,24 @@ def check(ctx):
             ok = ok and good
         if ge:
             targ = show(dg.expr(ge[0][1]["args"][1]))
-            ok = ok and "timeout" in targ
+            ok = ok and "timeout" in targ and util.plain_forward(dg.expr(ge[0][1]["args"][1]))
         ctx.ob("R06.3", f"{key}|answers-graceful-end-equals-zero", ok, f"{f['file']}:{f['line']}", f"close answers `{det}`; required: gracefully_end_all_streams(timeout).await == 0 with the caller's timeout")
     n = 0
-    for name, path in R.CHANNELS.items():
-        k = f"{path} as {R.T_COMMON}::gracefully_end_all_streams::{{closure#0}}"
+    for (meth, target, ci) in (("gracefully_end_all_streams", "end_all_streams", 2), ("flush", "flush", 2), ("gracefully_end_stream", "end_stream", 3)):
+      for name, path in R.CHANNELS.items():
+        k = f"{path} as {R.T_COMMON}::{meth}::{{closure#0}}"
         f = fx.fn_opt(k)
         if f is None:
-            ctx.ob("R06.3", f"{k}|present", False, "", "gracefully_end_all_streams coroutine not found"); continue
+            ctx.ob("R06.3", f"{k}|present", False, "", f"{meth} coroutine not found"); continue
         body = Body(f); dg = D.Dag(body)
-        ea = [(b, c) for (b, c) in body.calls if (c.get("resolved") or c.get("f")) == SM + "::end_all_streams"]
+        ea = [(b, c) for (b, c) in body.calls if (c.get("resolved") or c.get("f")) == SM + "::" + target]
         ok = len(ea) == 1
         if ok:
             c = ea[0][1]
-            cl = dg.expr(c["args"][2])
-            ok = "timeout" in show(dg.expr(c["args"][1])) and cl[0] == "closure"
+            cl = dg.expr(c["args"][ci])
+            ok = "timeout" in show(dg.expr(c["args"][ci - 1])) and util.plain_forward(dg.expr(c["args"][ci - 1])) and cl[0] == "closure"
+            if ok and meth == "gracefully_end_stream":
+                ok = "stream_id" in show(dg.expr(c["args"][1])) and util.plain_forward(dg.expr(c["args"][1]))
             if ok:
                 cb = Body(fx.fn(cl[1]))
                 pc = [cc for (_, cc) in cb.calls if cc.get("fname") == "pending_items_count"]
@@ -163,7 +166,11 @@ def check(ctx):
                     sig = lambda bd: [c_.get("fname") for (_, c_) in bd.calls if c_.get("fname") not in ("deref",)]
                     ok = sig(cb) == sig(pb) and bool(sig(cb))
         n += 1
-        ctx.ob("R06.3", f"{k}|delegates-with-own-pending-count", ok, f"{f['file']}:{f['line']}", "hands the caller's timeout and its own pending_items_count to end_all_streams")
+        ctx.ob("R06.3", f"{k}|delegates-with-own-pending-count", ok, f"{f['file']}:{f['line']}", f"hands the caller's timeout (and stream id) and its own pending_items_count to {target}")
+    import delegation
+    for fn in ("pending_items_count", "buffer_size"):
+        delegation.thin(ctx, "R06.3", "uni::uni::Uni as uni::uni::GenericUni::" + fn, fn, "what the Uni reports is its channel's own figure")
+        delegation.thin(ctx, "R06.3", "multi::multi::Multi::" + fn, fn, "what the Multi reports is its channel's own figure")
     # ------------------------------------------------------------------ R06.4 is_channel_open / flags
     for name, path in R.CHANNELS.items():
         k = f"{path} as {R.T_COMMON}::is_channel_open"
